@@ -102,6 +102,33 @@ def description_report_parts(ctx, rule):
            'updated / created / deleted descriptors are reported with UPDATE / CREATE / DELETE', fi=dm, witness=kinds)
 
 
+def parent_bump_is_reported(ctx, rule):
+    """Every version bump of a parent descriptor (child added / removed) is reported by a copy taken after the bump."""
+    repo = ctx.repo
+    ip = repo.func('sdc11073.mdib.transactions.DescriptorTransaction._increment_parent_descriptor_version')
+    gi = cfg_of(ip)
+    incs = gi.nodes_calling('increment_descriptor_version')
+    if not incs:
+        raise AnalysisError(f'{rule}: no increment_descriptor_version in _increment_parent_descriptor_version')
+    for n, c in incs:
+        obj = unparse(c.func.value)
+        apps = [(m, cc) for m, cc in gi.nodes_calling('append') if unparse(cc.func.value) == 'proc.descr_updated'
+                and cc.args and unparse(cc.args[0]) == f'{obj}.mk_copy()']
+        ok = bool(apps)
+        for m, _cc in apps:
+            ok = ok and gi.dominates(n, m) and set(gi.facts_at(m)) == set(gi.facts_at(n))
+        ok = ok and gi.must_pass(n, [m for m, _ in apps])
+        ctx.ob(rule, f'{obj} bumped and reported', ok,
+               f'every version bump of {obj} is followed unconditionally by reporting a copy taken after the bump' if ok
+               else f'{obj}.increment_descriptor_version() is not always followed by appending a fresh copy to '
+                    f'descr_updated: the provider version advances further than what the report says (e.g. two children '
+                    f'of one parent created in one transaction)', fi=ip, node=c,
+               witness={'bump_facts': gi.facts_at(n), 'append_facts': [gi.facts_at(m) for m, _ in apps]})
+    st2 = [n for n, c in gi.nodes_calling('_update_corresponding_state')]
+    ctx.ob(rule, 'parent state follows', bool(st2) and all(gi.dominates(incs[0][0], s) for s in st2),
+           'the parent\'s state is updated (and reported) after the parent version bump', fi=ip)
+
+
 def run(ctx):  # noqa: C901, PLR0912, PLR0915
     repo = ctx.repo
     ctx.rule('C04.R1', 'one version group per commit, read under the commit locks, same value in every report; sends block')
@@ -355,28 +382,7 @@ def run(ctx):  # noqa: C901, PLR0912, PLR0915
     common.copies_are_deep(ctx, 'C04.R4')   # the copies kept for periodic reports / handed to observers are deep
     common.observers_all_notified(ctx, 'C04.R1')   # every commit reaches the report sender
     # ------------------------------------------------------------------ R5
-    ip = repo.func('sdc11073.mdib.transactions.DescriptorTransaction._increment_parent_descriptor_version')
-    gi = cfg_of(ip)
-    incs = gi.nodes_calling('increment_descriptor_version')
-    if not incs:
-        raise AnalysisError('C04.R5: no increment_descriptor_version in _increment_parent_descriptor_version')
-    for n, c in incs:
-        obj = unparse(c.func.value)
-        apps = [(m, cc) for m, cc in gi.nodes_calling('append') if unparse(cc.func.value) == 'proc.descr_updated'
-                and cc.args and unparse(cc.args[0]) == f'{obj}.mk_copy()']
-        ok = bool(apps)
-        for m, _cc in apps:
-            ok = ok and gi.dominates(n, m) and set(gi.facts_at(m)) == set(gi.facts_at(n))
-        ok = ok and gi.must_pass(n, [m for m, _ in apps])
-        ctx.ob('C04.R5', f'{obj} bumped and reported', ok,
-               f'every version bump of {obj} is followed unconditionally by reporting a copy taken after the bump' if ok
-               else f'{obj}.increment_descriptor_version() is not always followed by appending a fresh copy to '
-                    f'descr_updated: the provider version advances further than what the report says (e.g. two children '
-                    f'of one parent created in one transaction)', fi=ip, node=c,
-               witness={'bump_facts': gi.facts_at(n), 'append_facts': [gi.facts_at(m) for m, _ in apps]})
-    st2 = [n for n, c in gi.nodes_calling('_update_corresponding_state')]
-    ctx.ob('C04.R5', 'parent state follows', bool(st2) and all(gi.dominates(incs[0][0], s) for s in st2),
-           'the parent\'s state is updated (and reported) after the parent version bump', fi=ip)
+    parent_bump_is_reported(ctx, 'C04.R5')
 
 
 # ---------------------------------------------------------------------- self-test seeds
